@@ -48,6 +48,14 @@ def history_case(L, first_ops):
                         a.works_for = b
                     else:
                         a.sub_org_of.append(b)
+                elif k == "role":  # macro: a role (Boss) of a human is related to an org; the inference reaches the role taker
+                    hh, oo = W.create(ids, W.Human, len(objs)), W.create(ids, W.Org, len(objs) + 1)
+                    bb = W.create(ids, W.Boss, person=hh)
+                    for o in (hh, oo, bb):
+                        objs.append(o)
+                        census.append((weakref.ref(o), type(o)))
+                    bb.head_of = oo
+                    del hh, oo, bb
                 elif k == "drop":
                     W.drop(ids, objs, op[1])
                 elif k == "collect":
@@ -83,7 +91,7 @@ def history_case(L, first_ops):
                     os_ = [i for i in live if isinstance(objs[i], W.Org)]
                     opts = ([("create", t) for t in TYPES] + [("relate", a, b) for a in hs for b in os_] + [("relate", a, b) for a in os_ for b in os_ if a != b]
                             + [("drop", i) for i in live] + [("collect",)] + [("declare", t, keep) for t in ("T", "Org") for keep in (0, 1)]
-                            + [("query", t) for t in ("T", "Org", "Human")] + [("query-explicit", "T"), ("query-partial", "T")])
+                            + [("query", t) for t in ("T", "Org", "Human")] + [("query-explicit", "T"), ("query-partial", "T"), ("role",)])
                     if s < len(first_ops):
                         op = first_ops[s]
                         if op not in opts:
@@ -150,7 +158,7 @@ def history_case(L, first_ops):
 def cases(tier, seed):
     L = 3 if tier == "quick" else 5
     cs = []
-    firsts = [[("create", t)] for t in TYPES] + [[("declare", "T", 1)], [("query", "T")]]
+    firsts = [[("create", t)] for t in TYPES] + [[("declare", "T", 1)], [("query", "T")], [("role",)]]
     if tier != "quick":
         firsts = [[("create", t), op2] for t in TYPES for op2 in [("create", "T"), ("create", "Org"), ("drop", 0), ("query", "T"), ("query-explicit", "T"), ("declare", "T", 1), ("declare", "T", 0)]]
     for f in firsts:
@@ -162,7 +170,7 @@ def cases(tier, seed):
 def describe(tier):
     L = 3 if tier == "quick" else 5
     return dict(
-        rule="histories of %d operations (bounded symbolic choices among create T/Sub/Org/Human, relate, drop reference i, gc.collect(), declare a domain-less query without "
+        rule="histories of %d operations (bounded symbolic choices among create T/Sub/Org/Human, relate, a role of a human related to an org, drop reference i, gc.collect(), declare a domain-less query without "
         "evaluating it (kept or dropped), evaluate a domain-less / explicit-domain query completely, evaluate partially and abandon) on the real SymbolGraph, reference "
         "counting and collector; then the program drops every instance and query and collects. Checked: weak references to dropped instances are dead (separately for "
         "instances that an evaluated query has returned), they are absent from domain-less variables, the registry (graph nodes, per-class lists, instance index, relation "
